@@ -10,7 +10,7 @@ use std::cell::{Cell, UnsafeCell};
 pub struct Checking;
 
 #[derive(Clone, Copy)]
-struct Entry { ptr: usize, size: usize, align: usize }
+struct Entry { ptr: usize, size: usize, align: usize, freed: bool }
 
 const CAP: usize = 1 << 18;
 
@@ -26,6 +26,8 @@ pub struct Report {
     pub mismatches: Vec<(usize, usize, usize, usize)>,
     /// releases of blocks that were not obtained inside the tracked region (or released twice)
     pub unknown_frees: u64,
+    /// releases of a block that had already been released inside the region (quarantine mode only)
+    pub double_frees: u64,
     pub table_overflow: bool,
 }
 
@@ -40,6 +42,10 @@ thread_local! {
     static OVERFLOW: Cell<bool> = const { Cell::new(false) };
     static MISMATCH: UnsafeCell<[(usize, usize, usize, usize); 8]> = const { UnsafeCell::new([(0, 0, 0, 0); 8]) };
     static NMISMATCH: Cell<usize> = const { Cell::new(0) };
+    /// quarantine mode: released blocks stay in the table (marked) and are returned to the system at the end of the region, so a
+    /// second release of the same block is recognised instead of corrupting the process heap
+    static QUAR: Cell<bool> = const { Cell::new(false) };
+    static DOUBLE: Cell<u64> = const { Cell::new(0) };
 }
 
 fn slot(ptr: usize) -> usize { (ptr >> 4).wrapping_mul(0x9E3779B97F4A7C15usize) >> (64 - 18) }
@@ -61,7 +67,7 @@ unsafe fn insert(ptr: usize, size: usize, align: usize) {
     let mut i = slot(ptr);
     loop {
         let x = &mut *e.add(i);
-        if x.ptr == 0 { *x = Entry { ptr, size, align }; break; }
+        if x.ptr == 0 { *x = Entry { ptr, size, align, freed: false }; break; }
         i = (i + 1) & (CAP - 1);
     }
     TABLE.with(|t| (*t.get()).used += 1);
@@ -69,15 +75,17 @@ unsafe fn insert(ptr: usize, size: usize, align: usize) {
     ALLOCS.with(|a| a.set(a.get() + 1));
 }
 
-unsafe fn remove(ptr: usize, size: usize, align: usize) {
+/// Returns whether the block may be handed back to the system allocator now.
+unsafe fn remove(ptr: usize, size: usize, align: usize, may_quarantine: bool) -> bool {
     let e = table();
     let mut i = slot(ptr);
     loop {
         let x = &mut *e.add(i);
-        if x.ptr == 0 { UNKNOWN.with(|u| u.set(u.get() + 1)); return; }
+        if x.ptr == 0 { UNKNOWN.with(|u| u.set(u.get() + 1)); return true; }
         if x.ptr == ptr { break; }
         i = (i + 1) & (CAP - 1);
     }
+    if (*e.add(i)).freed { DOUBLE.with(|d| d.set(d.get() + 1)); return false; }
     let x = *e.add(i);
     if x.size != size || x.align != align {
         let n = NMISMATCH.with(|n| n.get());
@@ -86,6 +94,7 @@ unsafe fn remove(ptr: usize, size: usize, align: usize) {
     }
     LIVE.with(|l| l.set(l.get() - x.size as isize));
     FREES.with(|f| f.set(f.get() + 1));
+    if may_quarantine && QUAR.with(|q| q.get()) { (*e.add(i)).freed = true; return false; }
     TABLE.with(|t| (*t.get()).used -= 1);
     // backward-shift deletion (linear probing without tombstones)
     let mut hole = i;
@@ -100,6 +109,7 @@ unsafe fn remove(ptr: usize, size: usize, align: usize) {
         j = (j + 1) & (CAP - 1);
     }
     (*e.add(hole)).ptr = 0;
+    true
 }
 
 unsafe impl GlobalAlloc for Checking {
@@ -114,12 +124,12 @@ unsafe impl GlobalAlloc for Checking {
         p
     }
     unsafe fn dealloc(&self, ptr: *mut u8, layout: Layout) {
-        if TRACK.try_with(|t| t.get()).unwrap_or(false) { remove(ptr as usize, layout.size(), layout.align()); }
+        if TRACK.try_with(|t| t.get()).unwrap_or(false) { if !remove(ptr as usize, layout.size(), layout.align(), true) { return; } }
         System.dealloc(ptr, layout)
     }
     unsafe fn realloc(&self, ptr: *mut u8, layout: Layout, new_size: usize) -> *mut u8 {
         let tracked = TRACK.try_with(|t| t.get()).unwrap_or(false);
-        if tracked { remove(ptr as usize, layout.size(), layout.align()); }
+        if tracked { remove(ptr as usize, layout.size(), layout.align(), false); }
         let p = System.realloc(ptr, layout, new_size);
         if tracked {
             if !p.is_null() { insert(p as usize, new_size, layout.align()); } else { insert(ptr as usize, layout.size(), layout.align()); }
@@ -138,6 +148,29 @@ pub fn tracked<R>(f: impl FnOnce() -> R) -> (R, Report) {
     (r, report())
 }
 
+/// Like `tracked`, with released blocks quarantined until the end of the region (double releases are counted, not executed).
+pub fn tracked_quarantine<R>(f: impl FnOnce() -> R) -> (R, Report) {
+    reset();
+    QUAR.with(|q| q.set(true));
+    TRACK.with(|t| t.set(true));
+    let r = std::panic::catch_unwind(std::panic::AssertUnwindSafe(f));
+    TRACK.with(|t| t.set(false));
+    let rep = report();
+    release_quarantine();
+    QUAR.with(|q| q.set(false));
+    match r { Ok(r) => (r, rep), Err(p) => std::panic::resume_unwind(p) }
+}
+
+fn release_quarantine() {
+    unsafe {
+        let e = table();
+        for i in 0..CAP {
+            let x = *e.add(i);
+            if x.ptr != 0 && x.freed { System.dealloc(x.ptr as *mut u8, Layout::from_size_align_unchecked(x.size, x.align)); (*e.add(i)).ptr = 0; (*e.add(i)).freed = false; TABLE.with(|t| (*t.get()).used -= 1); }
+        }
+    }
+}
+
 pub fn set_tracking(on: bool) { TRACK.with(|t| t.set(on)); }
 pub fn live() -> isize { LIVE.with(|l| l.get()) }
 pub fn peak() -> isize { PEAK.with(|l| l.get()) }
@@ -145,19 +178,20 @@ pub fn reset_peak() { PEAK.with(|p| p.set(LIVE.with(|l| l.get()))); }
 
 pub fn reset() {
     TRACK.with(|t| t.set(false));
+    release_quarantine();
     // the table is empty unless the previous region leaked blocks
     if TABLE.with(|t| unsafe { (*t.get()).used }) != 0 {
         unsafe { let e = table(); std::ptr::write_bytes(e, 0, CAP); }
         TABLE.with(|t| unsafe { (*t.get()).used = 0 });
     }
-    LIVE.with(|l| l.set(0)); PEAK.with(|l| l.set(0)); ALLOCS.with(|l| l.set(0)); FREES.with(|l| l.set(0)); UNKNOWN.with(|l| l.set(0)); OVERFLOW.with(|l| l.set(false)); NMISMATCH.with(|l| l.set(0));
+    LIVE.with(|l| l.set(0)); PEAK.with(|l| l.set(0)); ALLOCS.with(|l| l.set(0)); FREES.with(|l| l.set(0)); UNKNOWN.with(|l| l.set(0)); OVERFLOW.with(|l| l.set(false)); NMISMATCH.with(|l| l.set(0)); DOUBLE.with(|l| l.set(0));
 }
 
 pub fn report() -> Report {
     let was = TRACK.with(|t| t.replace(false));
     let n = NMISMATCH.with(|n| n.get());
     let mism: Vec<(usize, usize, usize, usize)> = MISMATCH.with(|m| unsafe { let a: &[(usize, usize, usize, usize); 8] = &*m.get(); a[..n.min(8)].to_vec() });
-    let r = Report { live_bytes: live(), peak_bytes: peak(), allocs: ALLOCS.with(|a| a.get()), frees: FREES.with(|a| a.get()), mismatches: mism, unknown_frees: UNKNOWN.with(|u| u.get()), table_overflow: OVERFLOW.with(|o| o.get()) };
+    let r = Report { live_bytes: live(), peak_bytes: peak(), allocs: ALLOCS.with(|a| a.get()), frees: FREES.with(|a| a.get()), mismatches: mism, unknown_frees: UNKNOWN.with(|u| u.get()), double_frees: DOUBLE.with(|u| u.get()), table_overflow: OVERFLOW.with(|o| o.get()) };
     TRACK.with(|t| t.set(was));
     r
 }
